@@ -293,6 +293,14 @@ def choose_problem(case, o, fam):
         if case.get("expect_reject"):
             mode = "none" if vs is chosen[0] else mode
         a, b = natural_bounds(rnd, vs, ph)
+        if case.get("beyond_bound"):
+            # the first variable is held in a narrow interval that the target pulls it out of; every
+            # other variable is free: the bound of the first must hold all the same
+            if vs is chosen[0]:
+                a, b = sorted([ph * 0.97, ph * 1.03])
+                mode = "both"
+            else:
+                mode = "none"
         vs["min"] = a if mode in ("both", "lower") else None
         vs["max"] = b if mode in ("both", "upper") else None
     case["vars"] = chosen
@@ -303,6 +311,9 @@ def choose_problem(case, o, fam):
     kinds = ["f2", "ray_y", "ray_y", "spot"] + (["ray_x"] if fam == "tilt" else []) + ["f1"]
     if case.get("op_kind"):
         kinds = [case["op_kind"]]
+    if case.get("beyond_bound"):
+        case["ops"] = [{"type": "f2", "w": 1.0, "rel": rnd.choice([0.7, 1.4]), "data": {}}]
+        return case
     for _ in range(nops):
         kd = rnd.choice(kinds)
         if kd in ("f2", "f1"):
